@@ -66,8 +66,14 @@ func RuleKMonthBounds(c *core.Ctx) {
 					res[m] = d
 				}
 			}
-			if len(res) == 0 && bad == "" {
-				continue // not a month-based result for this interval (Once, Daily, Weekly)
+			allSelf := true
+			for _, d := range res {
+				if d.kind != calSelf {
+					allSelf = false
+				}
+			}
+			if (len(res) == 0 || allSelf) && bad == "" {
+				continue // not a month-based result for this interval (Once, Daily: the date itself; Weekly)
 			}
 			key := fmt.Sprintf("%s:%s:the result is a boundary of the date's own period", core.FuncName(fn), names[iv])
 			if bad != "" {
@@ -122,6 +128,7 @@ const (
 	calFirst = iota
 	calLast
 	calOther
+	calSelf // the date's own (symbolic) day of the month
 )
 
 // calDate: a day relative to the symbolic year Y of the date: year offset,
@@ -142,6 +149,8 @@ func (d calDate) String() string {
 		return fmt.Sprintf("%s-%02d-first", y, d.month)
 	case calLast:
 		return fmt.Sprintf("%s-%02d-last", y, d.month)
+	case calSelf:
+		return fmt.Sprintf("%s-%02d-(its own day)", y, d.month)
 	}
 	return fmt.Sprintf("%s-%02d-%02d", y, d.month, d.day)
 }
@@ -190,12 +199,13 @@ type calExec struct {
 	vals    map[ssa.Value]int64
 	isYear  map[ssa.Value]bool // the value is the date's year plus yoff
 	yoff    map[ssa.Value]int64
+	dayLin  map[ssa.Value][2]int64 // the value is a·d.Day() + b
 	usesM   map[ssa.Value]bool
 	depth   int
 }
 
 func newCalExec(p *core.Prog, fn *ssa.Function, iv, month int64) *calExec {
-	return &calExec{p: p, date: fn.Params[0], ivParam: fn.Params[1], iv: iv, month: month, vals: map[ssa.Value]int64{}, isYear: map[ssa.Value]bool{}, yoff: map[ssa.Value]int64{}, usesM: map[ssa.Value]bool{}}
+	return &calExec{p: p, date: fn.Params[0], ivParam: fn.Params[1], iv: iv, month: month, vals: map[ssa.Value]int64{}, isYear: map[ssa.Value]bool{}, yoff: map[ssa.Value]int64{}, dayLin: map[ssa.Value][2]int64{}, usesM: map[ssa.Value]bool{}}
 }
 
 // run executes fn to its return and interprets the returned date.
@@ -276,6 +286,9 @@ func (ex *calExec) dateValue(v ssa.Value, depth int) (calDate, bool, string) {
 	if depth > 6 {
 		return calDate{}, false, ""
 	}
+	if ex.isDate(v) {
+		return calDate{year: 0, month: ex.month, kind: calSelf}, true, ""
+	}
 	call, ok := v.(*ssa.Call)
 	if !ok {
 		return calDate{}, false, ""
@@ -297,6 +310,22 @@ func (ex *calExec) dateValue(v ssa.Value, depth int) (calDate, bool, string) {
 		var n [3]int64
 		for i, a := range args[1:] {
 			x, ok := ex.get(a)
+			if lin, isLin := ex.dayLin[core.Strip(a)]; !ok && isLin && i == 2 && base.kind == calSelf && lin[0] == -1 {
+				// d.AddDate(y, m, k - d.Day()): the k-th day of the date's month, then years and months
+				y, yok := ex.get(args[1])
+				mo, mok := ex.get(args[2])
+				if !yok || !mok {
+					return calDate{}, false, ""
+				}
+				nb, nok := normCal(base.year, base.month, lin[1])
+				if !nok {
+					return calDate{}, false, fmt.Sprintf("day %d of the date's month at %s depends on the length of the month", lin[1], ex.p.Pos(call.Pos()))
+				}
+				if nb.kind == calLast && (y != 0 || mo != 0) {
+					return calDate{}, false, "AddDate with months at " + ex.p.Pos(call.Pos()) + " is applied to the last day of a month"
+				}
+				return addCal(nb, y, mo, 0, ex.p.Pos(call.Pos()))
+			}
 			if !ok {
 				if ex.dependsOnMonth(a, 0) {
 					return calDate{}, false, "the argument of AddDate at " + ex.p.Pos(call.Pos()) + " depends on the month through an operation this rule does not evaluate"
@@ -386,6 +415,12 @@ func (ex *calExec) ymd(y, m, d ssa.Value, at *ssa.Call) (calDate, bool, string) 
 // addCal applies AddDate(y, m, d) as time does: years and months first (the
 // day of the month is kept), then days.
 func addCal(b calDate, y, m, d int64, at string) (calDate, bool, string) {
+	if b.kind == calSelf {
+		if y == 0 && m == 0 && d == 0 {
+			return b, true, ""
+		}
+		return calDate{}, false, "" // the date moved by constants: not a period boundary this rule knows
+	}
 	if y != 0 || m != 0 {
 		switch b.kind {
 		case calFirst:
@@ -466,7 +501,13 @@ func (ex *calExec) eval(v ssa.Value) {
 			ex.isYear[v] = true
 			ex.yoff[v] = ex.yoff[in]
 		}
+		if l, ok := ex.dayLin[in]; ok {
+			ex.dayLin[v] = l
+		}
 	case *ssa.UnOp:
+		if l, ok := ex.dayLin[core.Strip(x.X)]; ok && x.Op == token.SUB {
+			ex.dayLin[v] = [2]int64{-l[0], -l[1]}
+		}
 		if x.Op == token.SUB {
 			if a, ok := ex.get(x.X); ok {
 				set(-a, ex.usesM[core.Strip(x.X)])
@@ -475,6 +516,27 @@ func (ex *calExec) eval(v ssa.Value) {
 	case *ssa.BinOp:
 		a, ok1 := ex.get(x.X)
 		b, ok2 := ex.get(x.Y)
+		// a·Day + b
+		{
+			xs, ys := core.Strip(x.X), core.Strip(x.Y)
+			lx, isLx := ex.dayLin[xs]
+			ly, isLy := ex.dayLin[ys]
+			if !isLx && ok1 {
+				lx, isLx = [2]int64{0, a}, true
+			}
+			if !isLy && ok2 {
+				ly, isLy = [2]int64{0, b}, true
+			}
+			if isLx && isLy && (lx[0] != 0 || ly[0] != 0) {
+				switch x.Op {
+				case token.ADD:
+					ex.dayLin[v] = [2]int64{lx[0] + ly[0], lx[1] + ly[1]}
+				case token.SUB:
+					ex.dayLin[v] = [2]int64{lx[0] - ly[0], lx[1] - ly[1]}
+				}
+				return
+			}
+		}
 		// year ± constant stays a year
 		if xs, ys := core.Strip(x.X), core.Strip(x.Y); ex.isYear[xs] && ok2 && (x.Op == token.ADD || x.Op == token.SUB) {
 			ex.isYear[v] = true
@@ -519,6 +581,8 @@ func (ex *calExec) eval(v ssa.Value) {
 			set(ex.month, true)
 		case "Year":
 			ex.isYear[v] = true
+		case "Day":
+			ex.dayLin[v] = [2]int64{1, 0}
 		}
 	}
 }
